@@ -56,23 +56,31 @@ def main():
         sh(['git', '-C', REPO, 'worktree', 'remove', '--force', wt], REPO)
     confirmed = meta.get('demo_without_patch') == 'pass' and meta.get('builds') and meta.get('existing_suite_with_patch') == 'pass' and meta.get('demo_with_patch', '').startswith('fail')
     meta['confirmed'] = bool(confirmed)
-    # run the checks against the patched /repo
-    rc, out = sh(['git', '-C', REPO, 'status', '--porcelain'], REPO)
-    if out.strip():
-        print('refusing: /repo is not clean'); return 2
+    # run the checks against a scratch worktree with the patch applied (VERIF_REPO points the checks at it;
+    # evidence and replay files of these runs go to a scratch directory, /repo and /verif/evidence stay untouched)
     meta['checks'] = {}
-    rc, out = sh(['git', '-C', REPO, 'apply', os.path.join(os.path.abspath(sdir), 'patch.diff')], REPO)
+    wt2 = '/tmp/sv_chk_' + name
+    out_dir = '/tmp/sv_out_' + name
+    sh(['git', '-C', REPO, 'worktree', 'remove', '--force', wt2], REPO)
+    shutil.rmtree(out_dir, ignore_errors=True)
+    os.makedirs(os.path.join(out_dir, 'evidence'))
+    os.makedirs(os.path.join(out_dir, 'replays'))
+    sh(['git', '-C', REPO, 'worktree', 'add', '--detach', wt2, 'HEAD'], REPO)
+    rc, out = sh(['git', 'apply', os.path.join(os.path.abspath(sdir), 'patch.diff')], wt2)
     try:
         for p in props:
             t0 = time.time()
-            rc, out = sh([os.path.join(VERIF, 'check'), p, tier], VERIF, timeout=4 * 3600)
+            env = go_env()
+            env.update({'VERIF_REPO': wt2, 'VERIF_EVIDENCE_DIR': os.path.join(out_dir, 'evidence'), 'VERIF_REPLAYS_DIR': os.path.join(out_dir, 'replays')})
+            pr = subprocess.run([os.path.join(VERIF, 'check'), p, tier], cwd=VERIF, env=env, stdout=subprocess.PIPE, stderr=subprocess.STDOUT, text=True, timeout=4 * 3600)
+            rc, out = pr.returncode, pr.stdout
             lines = [l for l in out.splitlines() if l.startswith('VIOLATION') or l.startswith('INCONCLUSIVE') or l.startswith('OK ')]
             detail = [l.strip()[:300] for l in out.splitlines() if l.startswith('  ')][:3]
             meta['checks'][p] = {'exit': rc, 'caught': rc == 1, 'lines': lines[:4], 'detail': detail, 'wall_s': round(time.time() - t0, 1), 'tier': tier}
             print(name, p, 'exit', rc, lines[:2], detail[:1])
     finally:
-        sh(['git', '-C', REPO, 'checkout', '--', '.'], REPO)
-        sh(['git', '-C', REPO, 'clean', '-fdq'], REPO)
+        sh(['git', '-C', REPO, 'worktree', 'remove', '--force', wt2], REPO)
+        shutil.rmtree(out_dir, ignore_errors=True)
     dst = os.path.join(VERIF, 'seeded', name)
     os.makedirs(dst, exist_ok=True)
     shutil.copy(os.path.join(sdir, 'patch.diff'), dst)
